@@ -1231,16 +1231,18 @@ class SSHClientProcess(SSHProcess[AnyStr], SSHClientStreamSession[AnyStr]):
 
         recv_buf = self._recv_buf[datatype]
 
+        # Empty the list in place, as stream readers waiting for data
+        # hold a reference to it
         if recv_buf and isinstance(recv_buf[-1], Exception):
-            recv_buf, self._recv_buf[datatype] = recv_buf[:-1], recv_buf[-1:]
+            output, recv_buf[:] = recv_buf[:-1], recv_buf[-1:]
         else:
-            self._recv_buf[datatype] = []
+            output, recv_buf[:] = recv_buf[:], []
 
-        self._recv_buf_len -= sum(len(cast(AnyStr, data)) for data in recv_buf)
+        self._recv_buf_len -= sum(len(cast(AnyStr, data)) for data in output)
         self._maybe_resume_reading()
 
         buf = cast(AnyStr, '' if self._encoding else b'')
-        return buf.join(cast(Iterable[AnyStr], recv_buf))
+        return buf.join(cast(Iterable[AnyStr], output))
 
     def session_started(self) -> None:
         """Start a process for this newly opened client channel"""
